@@ -32,6 +32,9 @@ DecAgree(ev) ==
   /\ ~ev.panic
   /\ d.ok => (ev.ok /\ ev.val = d.val /\ ev.n = d.n /\ ev.used = d.n)
   /\ ~d.ok => ~ev.ok
+  \* "consumes exactly that many bytes": once the value's bytes have arrived the source is not asked for more
+  \* (on a live connection such a request blocks until the NEXT message arrives)
+  /\ ("over" \in DOMAIN ev /\ d.ok) => ~ev.over
 
 DecOKFor(ev) ==
   CASE Prop = "C01" -> DecAgree(ev)
